@@ -14,9 +14,20 @@ def has_nested(root):
     return False
 
 
+def shared_texts(n, acc):
+    for x in list(n[4]) + list(n[5]):
+        if x:
+            acc.append(x)
+    if n[0] == 'C':
+        shared_texts(n[7], acc)
+        shared_texts(n[8], acc)
+
+
 def stmt_texts(st, acc):
-    """Every primitive value text of a statement, nested statements and private values included."""
+    """Every primitive value text of a statement (leaf texts and the shared texts that belong to the values), nested
+    statements and private values included."""
     for f, node in st:
+        shared_texts(node, acc)
         for lf in leaves(node):
             for cand in [lf] + list(lf[7]):
                 e = cand[6]
